@@ -230,10 +230,45 @@ static unsigned rec_len(unsigned tid, unsigned seq, unsigned maxlen, std::uint64
     return 1 + (r >> 8) % (maxlen < 64 ? maxlen : 64);
 }
 
+static unsigned g_threads = 0, g_maxlen = 0;
+static std::uint64_t g_seed = 0;
+static std::atomic<long long>* g_issued = nullptr;
+static long long g_sinks_per_record = 1;
+
+static void account(unsigned tid, unsigned seq, unsigned len)
+{
+    char head[64];
+    int hl = std::snprintf(head, sizeof head, "%u:%u:%u:", tid, seq, len);
+    g_issued->fetch_add((2 + hl + static_cast<long long>(len)) * g_sinks_per_record, std::memory_order_relaxed);
+}
+
 template <typename L>
 static void statement(unsigned tid, unsigned seq, unsigned len, bool named)
 {
     std::string p = payload(tid, seq, len);
+    if (seq % 7 == 3)
+    {
+        // an operand that itself logs: two statements of one thread are alive at the same time; the inner
+        // record belongs to the virtual thread tid + threads
+        unsigned vt = tid + g_threads;
+        unsigned ilen = rec_len(vt, seq, g_maxlen, g_seed);
+        auto inner = [=] {
+            L::info() << vt << ':' << seq << ':' << ilen << ':' << payload(vt, seq, ilen);
+            account(vt, seq, ilen);
+            return std::string();
+        };
+        if (named)
+        {
+            auto s = L::warn();
+            s << tid << ':' << seq;
+            s << inner << ':' << len << ':' << p;
+        }
+        else
+        {
+            L::info() << tid << ':' << seq << ':' << inner << len << ':' << p;
+        }
+        return;
+    }
     if (named)
     {
         auto s = L::warn();
@@ -254,7 +289,7 @@ static void parse_capture(const char* name, const racy_buf& b, unsigned threads,
 {
     const char* d = b.data.data();
     std::size_t n = b.cursor;
-    std::vector<long> next(threads, 0);
+    std::vector<long> next(2 * threads, -1);
     std::set<std::pair<unsigned, unsigned>> seen;
     std::size_t i = 0;
     long count = 0;
@@ -278,7 +313,7 @@ static void parse_capture(const char* name, const racy_buf& b, unsigned threads,
         unsigned tid = 0, seq = 0, len = 0;
         int consumed = 0;
         if (std::sscanf(body.c_str(), "%u:%u:%u:%n", &tid, &seq, &len, &consumed) != 3 || consumed == 0 ||
-            tid >= threads || seq >= records)
+            tid >= 2 * threads || seq >= records)
         {
             violations.push_back(std::string("record-header-garbled ") + name + " '" + body.substr(0, 40) + "'");
             return;
@@ -296,25 +331,30 @@ static void parse_capture(const char* name, const racy_buf& b, unsigned threads,
                                  std::to_string(seq));
             return;
         }
-        if (static_cast<long>(seq) != next[tid])
+        bool in_order = tid < threads ? static_cast<long>(seq) == next[tid] + 1 : static_cast<long>(seq) > next[tid];
+        if (!in_order)
         {
             violations.push_back(std::string("thread-order-broken ") + name + " tid " + std::to_string(tid) +
-                                 " expected seq " + std::to_string(next[tid]) + " got " + std::to_string(seq));
+                                 " after seq " + std::to_string(next[tid]) + " got " + std::to_string(seq));
             return;
         }
-        next[tid] = seq + 1;
+        next[tid] = seq;
         if (static_cast<int>(tid) != last_tid)
         {
             ++switches_out;
             last_tid = static_cast<int>(tid);
         }
-        order_out.push_back(static_cast<char>('A' + tid));
+        order_out.push_back(static_cast<char>(tid < threads ? 'A' + tid : 'a' + (tid - threads)));
         ++count;
         i = j + 1;
     }
-    if (count != static_cast<long>(threads) * records)
+    long inner = 0;
+    for (unsigned s = 0; s < records; ++s)
+        inner += (s % 7 == 3);
+    long expect = static_cast<long>(threads) * (records + inner);
+    if (count != expect)
         violations.push_back(std::string("record-lost ") + name + ": " + std::to_string(count) + " of " +
-                             std::to_string(static_cast<long>(threads) * records) + " records captured");
+                             std::to_string(expect) + " records captured");
 }
 
 int main(int argc, char** argv)
@@ -335,7 +375,7 @@ int main(int argc, char** argv)
     // delivered when somebody logs again is lost as far as a quiescent program is concerned)
     unsigned per_round = argc > 7 ? static_cast<unsigned>(std::atoi(argv[7])) : 0;
 
-    std::size_t cap = static_cast<std::size_t>(threads) * records * (maxlen + 64) + 4096;
+    std::size_t cap = static_cast<std::size_t>(threads) * records * (maxlen + 64) * 2 + 4096;
     racy_buf outbuf(cap), errbuf(cap);
     outbuf.rng = seed * 3 + 1;
     errbuf.rng = seed * 5 + 2;
@@ -360,6 +400,11 @@ int main(int argc, char** argv)
     std::atomic<bool> stranded{ false };
     std::atomic<long> stranded_round{ -1 };
     const long long sinks_per_record = topo == 3 ? 2 : 1;
+    g_threads = threads;
+    g_maxlen = maxlen;
+    g_seed = seed;
+    g_issued = &issued_bytes;
+    g_sinks_per_record = sinks_per_record;
     std::vector<std::thread> ts;
     for (unsigned t = 0; t < threads; ++t)
     {
@@ -393,13 +438,7 @@ int main(int argc, char** argv)
                     break;
                 }
                 in_statement.fetch_sub(1, std::memory_order_relaxed);
-                {
-                    // STX tid:seq:len:payload ETX
-                    char head[64];
-                    int hl = std::snprintf(head, sizeof head, "%u:%u:%u:", t, s, len);
-                    issued_bytes.fetch_add((2 + hl + static_cast<long long>(len)) * sinks_per_record,
-                                           std::memory_order_relaxed);
-                }
+                account(t, s, len); // STX tid:seq:len:payload ETX
                 std::uint64_t r = splitmix(rng);
                 if (r % 8 == 0 && !per_round)
                     small_delay(r >> 8);
